@@ -156,7 +156,7 @@ theorem gen_no_package_state :
     Gen.Bls.bls_package_vars = [] ∧ Gen.Bls.tbls_package_vars = [] ∧
     Gen.Bls.bls_imports = ["crypto/cipher", "errors", "github.com/DOSNetwork/core/suites",
       "github.com/dedis/kyber", "golang.org/x/crypto/sha3"] ∧
-    Gen.Bls.tbls_imports = ["bytes", "encoding/binary", "github.com/DOSNetwork/core/share",
+    Gen.Bls.tbls_imports = ["bytes", "encoding/binary", "errors", "github.com/DOSNetwork/core/share",
       "github.com/DOSNetwork/core/sign/bls", "github.com/DOSNetwork/core/suites"] ∧
     Gen.Bls.bls_funcs = ["NewKeyPair", "Sign", "Verify", "hashToPoint"] ∧
     Gen.Bls.tbls_funcs = ["Recover", "SigShare.Index", "SigShare.Value", "Sign", "Verify", "sliceUniqMap"] := by
